@@ -275,7 +275,9 @@ func (fr *Frame) applyContractRes(v ssa.Value, f *ssa.Function, con *Contract, a
 	pre := fr.mem.clone()
 	env.mem, env.old = pre, pre
 	for _, cl := range con.Requires {
+		env.quantInst = true
 		t, err := env.EvalBool(cl.Expr)
+		env.quantInst = false
 		if err != nil {
 			ex.oos("%s: cannot evaluate precondition of %s: %v", shortName(fr.fn.String()), shortName(con.Key), err)
 			continue
